@@ -18,11 +18,11 @@ TECHNIQUE = ('runtime monitoring: save/load round-trip oracle on the real functi
 RULE = ('pages with 0-8 lines; sparse matrices 1-60 x 2-40 (float64 and float32, with fully pruned frames and frames far above the rest) with sparsity 0-99 % and no stored 0.0; charsets incl. multi-codepoint strings; frame windows present or '
         '[None, None]; file-path and bytes variants; files holding a subset / superset of the line ids; legacy files without line_characters / logit_coords; '
         'missing_line_logits_ok. non-trivial = page with >= 2 lines of different shapes; distinct = hash of the page description Absent lines with look-alike ids; legacy files with exactly one side table.')
-ASSUMPTIONS = ['no stored logit is exactly 0.0 (0.0 is the sparse format\'s "pruned" marker)', 'line ids are unique within a page',
+ASSUMPTIONS = ['0.0 is the sparse format\'s "pruned" marker: a genuine logit is never exactly 0.0, and an explicitly stored 0.0 means pruned as well', 'line ids are unique within a page',
                'the end-to-end leg uses transcriptions with plain single spaces, geometry inside the page; both layouts go through the same decoder and exporter']
 N = {'quick': 500, 'thorough': 30000}
 CLASSES = ['roundtrip', 'roundtrip_bytes', 'subset', 'superset', 'legacy', 'missing_component', 'dense', 'rebuild', 'rebuild', 'empty_page']
-REQUIRED = ['refused_saves_over_an_existing_file', 'partial_file_redecodes', 'legacy:characters_only', 'legacy:coords_only', 'roundtrip_lines', 'untouched_checked', 'missing_reported', 'dense_checked', 'rebuild_pages', 'rebuild_lines_decoded', 'rebuild_alto_compared', 'legacy_checked', 'reloads', 'parse_folder_rebuilds', 'float32_lines']
+REQUIRED = ['matrices_with_explicitly_stored_zeros', 'refused_saves_over_an_existing_file', 'partial_file_redecodes', 'legacy:characters_only', 'legacy:coords_only', 'roundtrip_lines', 'untouched_checked', 'missing_reported', 'dense_checked', 'rebuild_pages', 'rebuild_lines_decoded', 'rebuild_alto_compared', 'legacy_checked', 'reloads', 'parse_folder_rebuilds', 'float32_lines']
 CHARSETS = [list('abcdefgh '), list('abc '), ['a', 'b', 'é', 'ạ̈', 'שׁ', '\U0001F600', ' '], [chr(0x61 + k) for k in range(26)] + [' ', '.', ',']]
 
 
@@ -60,7 +60,11 @@ def random_sparse(rng, T, C):
         d[int(rng.integers(0, T)), int(rng.integers(0, C))] = -10.0 ** float(rng.uniform(-12, -6))    # a genuine stored logit next to (but not) zero
     if rng.random() < 0.5:
         d = d.astype(np.float32)                           # what the OCR engine emits
-    return sparse.csc_matrix(d)
+    m = sparse.csc_matrix(d)
+    if rng.random() < 0.25 and m.data.size:
+        # entries pruned AFTER the matrix was built (m.data[...] = 0 without eliminate_zeros): zeros that are stored explicitly are still "pruned"
+        m.data[rng.random(m.data.size) < 0.3] = 0
+    return m
 
 
 def build_page(L, case, alignable=False):
@@ -269,7 +273,10 @@ def check_dense(b, mon, step='after load'):
             d = lb.get_dense_logits(floor) if floor != -80 else lb.get_dense_logits()
             mon.count('dense_checked')
             exp = np.full(lb.logits.shape, float(floor))
-            exp[src.row, src.col] = src.data
+            keep = src.data != 0                   # 0.0 is the format's marker for "pruned", whether it is stored explicitly or not
+            exp[src.row[keep], src.col[keep]] = src.data[keep]
+            if not keep.all():
+                mon.count('matrices_with_explicitly_stored_zeros')
             if d.shape != exp.shape or not np.array_equal(d, exp):
                 mon.violation('dense-reconstruction', {'line': lb.id, 'floor': floor, 'step': step, 'max_abs_diff': float(np.abs(d - exp).max()) if d.shape == exp.shape else None,
                               'shapes': [list(d.shape), list(exp.shape)]})
